@@ -190,6 +190,28 @@ fn snap_typed<A, S: BumpAllocatorSettings>(st: Stats<'_, A, S>) -> StatsSnap {
     StatsSnap {
         cur: cur_start.and_then(|s| chunks.iter().position(|c| c.chunk_start == s)),
         b2s: st.big_to_small().map(|c| c.chunk_start().as_ptr() as usize).collect(),
+        walk: st.current_chunk().map(|c| {
+            // the list as seen from the current chunk: iter_prev() backwards, the chunk itself, iter_next() forwards,
+            // and the same again by following prev()/next() one link at a time
+            let mut w: Vec<usize> = c.iter_prev().map(|c| c.chunk_start().as_ptr() as usize).collect();
+            w.reverse();
+            w.push(c.chunk_start().as_ptr() as usize);
+            w.extend(c.iter_next().map(|c| c.chunk_start().as_ptr() as usize));
+            let mut links = Vec::new();
+            let mut p = c.prev();
+            while let Some(x) = p {
+                links.push(x.chunk_start().as_ptr() as usize);
+                p = x.prev();
+            }
+            links.reverse();
+            links.push(c.chunk_start().as_ptr() as usize);
+            let mut n = c.next();
+            while let Some(x) = n {
+                links.push(x.chunk_start().as_ptr() as usize);
+                n = x.next();
+            }
+            (w, links)
+        }),
         chunks,
         count: st.count(),
         size: st.size(),
@@ -218,6 +240,28 @@ fn snap_any(st: AnyStats<'_>) -> StatsSnap {
     StatsSnap {
         cur: cur_start.and_then(|s| chunks.iter().position(|c| c.chunk_start == s)),
         b2s: st.big_to_small().map(|c| c.chunk_start().as_ptr() as usize).collect(),
+        walk: st.current_chunk().map(|c| {
+            // the list as seen from the current chunk: iter_prev() backwards, the chunk itself, iter_next() forwards,
+            // and the same again by following prev()/next() one link at a time
+            let mut w: Vec<usize> = c.iter_prev().map(|c| c.chunk_start().as_ptr() as usize).collect();
+            w.reverse();
+            w.push(c.chunk_start().as_ptr() as usize);
+            w.extend(c.iter_next().map(|c| c.chunk_start().as_ptr() as usize));
+            let mut links = Vec::new();
+            let mut p = c.prev();
+            while let Some(x) = p {
+                links.push(x.chunk_start().as_ptr() as usize);
+                p = x.prev();
+            }
+            links.reverse();
+            links.push(c.chunk_start().as_ptr() as usize);
+            let mut n = c.next();
+            while let Some(x) = n {
+                links.push(x.chunk_start().as_ptr() as usize);
+                n = x.next();
+            }
+            (w, links)
+        }),
         chunks,
         count: st.count(),
         size: st.size(),
